@@ -2,6 +2,7 @@ package main
 
 import (
 	"fmt"
+	"os"
 	"sort"
 	"strings"
 	"sync"
@@ -142,6 +143,24 @@ func (ex *Explorer) Run(harnesses []*ssa.Function) {
 	for i := len(harnesses) - 1; i >= 0; i-- {
 		ex.stack = append(ex.stack, &workItem{harness: harnesses[i]})
 	}
+	doneCh := make(chan struct{})
+	if ex.cfg.Verbose {
+		go func() {
+			tk := time.NewTicker(10 * time.Second)
+			defer tk.Stop()
+			for {
+				select {
+				case <-doneCh:
+					return
+				case <-tk.C:
+					ex.mu.Lock()
+					fmt.Fprintf(os.Stderr, "[%.0fs] paths=%d done=%d infeasible=%d viol=%d inconcl=%d queue=%d steps=%d\n", time.Since(ex.start).Seconds(), ex.paths, ex.done, ex.infeasible, ex.violN, ex.unsupportedN+ex.budgetN, len(ex.stack), ex.steps)
+					ex.mu.Unlock()
+				}
+			}
+		}()
+	}
+	defer close(doneCh)
 	var wg sync.WaitGroup
 	for i := 0; i < ex.cfg.Workers; i++ {
 		wg.Add(1)
@@ -285,6 +304,7 @@ func (m *Machine) run(harness *ssa.Function) (end pathEnd) {
 			}
 			end = pathEnd{"unsupported", fmt.Sprintf("engine panic: %v at %s", r, m.where())}
 			if m.w.ex.cfg.Verbose {
+				fmt.Fprintln(os.Stderr, "ENGINE PANIC at", m.where())
 				panic(r)
 			}
 		}
@@ -297,12 +317,20 @@ func (m *Machine) run(harness *ssa.Function) (end pathEnd) {
 	m.cur = main
 	m.tick(main)
 	// package initialisers of the repository (and the allow-listed library packages)
+	planted := false
 	for _, pkg := range m.p.initPkgs {
+		if !planted && strings.HasPrefix(pkg.Pkg.Path(), m.p.modPath) {
+			// library globals the repository's initialisers copy (os.ErrNotExist, ...)
+			m.plantGlobals()
+			planted = true
+		}
 		if init := pkg.Func("init"); init != nil && len(init.Blocks) > 0 {
 			m.callSync(main, &Closure{fn: init}, nil)
 		}
 	}
-	m.plantGlobals()
+	if !planted {
+		m.plantGlobals()
+	}
 	m.initDone = true
 	m.funcsSeen = map[*ssa.Function]bool{}
 	m.pushFrame(main, harness, nil, nil, -1)
